@@ -28,6 +28,10 @@ func rulesC02(c *Ctx) {
 	c12AnyOf(c)
 	c12Shared(c)
 	c12Unwrap(c)
+	// "never after the max duration has elapsed": the duration budget is measured from the execution's start time, which
+	// every copy an enclosing policy makes of the execution (a hedge's attempt, a timeout's child) must carry unchanged
+	c.Rule("execution-protocol")
+	execStateMethods(c, map[string]bool{"CopyForHedge": true, "CopyForCancellable": true, "copy": true, "CopyWithResult": true})
 }
 
 // c02Count: the retry executor's mutable fields are written only by the executor's own slot methods (and
